@@ -855,6 +855,28 @@ where
     }
 }
 
+// Verification hooks (compiled only with `--cfg d_engine_verif`; add-only, no behaviour change).
+#[cfg(d_engine_verif)]
+impl<T> Raft<T>
+where
+    T: TypeConfig,
+{
+    /// Queue `events` behind whatever is buffered and run the unchanged `process_inbound_events`
+    /// (AppendEntries merge + role handling) on them, without the `select!` loop.
+    pub async fn verif_process_inbound(
+        &mut self,
+        events: Vec<InboundEvent>,
+    ) -> Result<()> {
+        self.buffered_inbound_event.extend(events);
+        self.process_inbound_events().await
+    }
+
+    /// Current role's commit index.
+    pub fn verif_commit_index(&self) -> u64 {
+        self.role.commit_index()
+    }
+}
+
 impl<T> Drop for Raft<T>
 where
     T: TypeConfig,
